@@ -199,8 +199,9 @@ class TurtleWriter:
             out.append("PREFIX %s: <%s>" % (self.prefix, EX) if "sparql-prefix" in self.flags else "@prefix %s: <%s> ." % (self.prefix, EX))
         return out
 
-    def triples_block(self, triples):
-        """triples: set of (s, p, o) keys. Returns list of statement strings."""
+    def triples_block(self, triples, protected=frozenset()):
+        """triples: set of (s, p, o) keys. Returns list of statement strings.
+        protected: blank nodes that must keep their label (they also occur in another graph of the document)."""
         flags = self.flags
         triples = set(triples)
         refs = {}
@@ -230,13 +231,13 @@ class TurtleWriter:
                     items.append([t[2] for t in ts if t[1][1] == RDF + "first"][0])
                     cells.append(c)
                     c = [t[2] for t in ts if t[1][1] == RDF + "rest"][0]
-                if ok and not any(is_b(i) for i in items):
+                if ok and not any(is_b(i) for i in items) and not any(cc in protected for cc in cells):
                     inline[h] = "( %s )" % " ".join(self.term(i) for i in items)
                     for cc in cells:
                         consumed.update(subj_of[cc])
         if "anon" in flags:
             for b, ts in subj_of.items():
-                if is_b(b) and b not in inline and refs.get(b, 0) <= 1 and not any(is_b(t[2]) for t in ts) and not any(t in consumed for t in ts) \
+                if is_b(b) and b not in protected and b not in inline and refs.get(b, 0) <= 1 and not any(is_b(t[2]) for t in ts) and not any(t in consumed for t in ts) \
                         and not any(t[2] == b for t in ts):
                     body = " ; ".join("%s %s" % (self.term(t[1], True), self.term(t[2])) for t in sorted(ts, key=repr))
                     if refs.get(b, 0) == 1:
@@ -300,16 +301,25 @@ def write_trig(rows, flags=frozenset()):
     by_g = {}
     for r in rows:
         by_g.setdefault(r[3], set()).add(r[:3])
+    occurs = {}
+    for r in rows:
+        for x in r[:3]:
+            if is_b(x):
+                occurs.setdefault(x, set()).add(r[3])
+    for x in by_g:
+        if is_b(x):
+            occurs.setdefault(x, set()).add("as-graph-name")
+    protected = frozenset(b for b, gs in occurs.items() if len(gs) > 1)
     for g in sorted(by_g, key=repr):
-        block = w.triples_block(by_g[g])
+        block = w.triples_block(by_g[g], protected)
         if g is None:
             if "trig-bare-default" in flags:
                 out += block
             else:
-                out.append("{ %s }" % "\n".join(block))
+                out.append("{ %s\n}" % "\n".join(block))
         else:
             kw = "GRAPH " if "trig-graph-keyword" in flags else ""
-            out.append("%s%s { %s }" % (kw, w.term(g), "\n".join(block)))
+            out.append("%s%s { %s\n}" % (kw, w.term(g), "\n".join(block)))
     return "\n".join(w.header() + out) + "\n"
 
 
@@ -367,10 +377,10 @@ def write_rdfxml(rows, flags=frozenset()):
     ns = {RDF: "rdf"}
     default_ns = None
 
-    def qname(iri):
+    def qname(iri, attr=False):
         nonlocal default_ns
         n, local = split_pred(iri)
-        if "default-ns" in flags and n == EX:
+        if "default-ns" in flags and n == EX and not attr:  # (an unprefixed attribute is in no namespace)
             default_ns = EX
             return local
         if n not in ns:
@@ -451,7 +461,7 @@ def write_rdfxml(rows, flags=frozenset()):
             if "property-attributes" in flags and o[0] == "L" and not o[2] and (o[3] == lang or (not o[3] and not lang)) and p not in seen_pa \
                     and sum(1 for x in ts if x[1] == p) == 1 and p[1] != RDF + "type":
                 seen_pa.add(p)
-                pattrs += ' %s="%s"' % (qname(p[1]), xml_escape(o[1], flags, True))
+                pattrs += ' %s="%s"' % (qname(p[1], attr=True), xml_escape(o[1], flags, True))
                 continue
             if o[0] == "L":
                 props.append(lit_elem(p, o, lang))
@@ -459,7 +469,7 @@ def write_rdfxml(rows, flags=frozenset()):
             q = qname(p[1])
             if "parse-collection" in flags and o[0] == "B" and is_list(o):
                 items, cells = list_items(o)
-                if all(i[0] == "I" for i in items):
+                if all(i[0] == "I" for i in items) and not any(x in written for c in cells for x in subj_of.get(c, [])):
                     for c in cells:
                         for x in subj_of.get(c, []):
                             written.add(x)
@@ -505,7 +515,7 @@ def write_rdfxml(rows, flags=frozenset()):
 
     body = []
     # subjects that are not (only) nested first
-    order = sorted(subj_of, key=lambda s: (refs.get(s, 0), repr(s)))
+    order = sorted(subj_of, key=lambda s: (any(t[1][1] in (RDF + "first", RDF + "rest") for t in subj_of[s]), refs.get(s, 0), repr(s)))
     if "single-description" in flags:
         for s in order:
             for t in list(subj_of[s]):
@@ -549,6 +559,7 @@ def write_jsonld(rows, flags=frozenset(), dataset=False):
     if "language-default" in flags:
         ctx["@language"] = "en"
     coerced = {}
+    literal_valued = set()
 
     def compact_iri(iri, vocab=True):
         if "vocab" in flags and vocab and iri.startswith(EX) and re.match(r"^[A-Za-z_][A-Za-z0-9_]*$", iri[len(EX):]):
@@ -633,8 +644,8 @@ def write_jsonld(rows, flags=frozenset(), dataset=False):
                         v = {"@list": [value(i, None) for i in items]}
                         node.setdefault(pkey, []).append(v)
                         continue
-                if "type-coercion" in flags and o[0] != "L" and all(x[2][0] != "L" for x in triples if x[1] == p) and pkey != p[1] or \
-                        ("type-coercion" in flags and o[0] != "L" and all(x[2][0] != "L" for x in triples if x[1] == p) and "vocab" not in flags and "context-prefix" not in flags):
+                if "type-coercion" in flags and o[0] != "L" and p not in literal_valued and \
+                        (pkey != p[1] or ("vocab" not in flags and "context-prefix" not in flags)):
                     term = pkey if pkey != p[1] else "term_" + re.sub(r"[^A-Za-z0-9]", "_", p[1])[-12:]
                     ctx[term] = {"@id": p[1], "@type": "@id"}
                     coerced[term] = True
@@ -659,6 +670,7 @@ def write_jsonld(rows, flags=frozenset(), dataset=False):
     by_g = {}
     for r in rows:
         by_g.setdefault(r[3] if len(r) > 3 else None, set()).add(r[:3])
+    literal_valued.update(r[1] for r in rows if r[2][0] == "L")  # the context is document-wide: so is the decision to coerce a term
     docs = []
     for g in sorted(by_g, key=repr):
         nodes = graph_nodes(by_g[g])
